@@ -67,6 +67,32 @@ class PtypeHooks(Hooks):
                 it.violate('C08.table', {'what': 'constructor-type', 'expected': want, 'got': str(out.value.ptype),
                                          'kw': ','.join(sorted(ev.get('k', {})))},
                            'Wavefront(%s) has type %s, expected %s' % (', '.join(sorted(ev.get('k', {}))), out.value.ptype, want), i)
+        if ev['fn'] == 'churn.planes':
+            it.probe('short_lived_planes')
+            it.probe('check:table')
+            w_ = it.resolve(ev['a'][0])
+            wt_ = str(w_.ptype)
+            want = [self.doc.result(wt_, n_) or 'TypeError' for n_ in ev['a'][1]]
+            got_ = list(out.value) if out.ok else [type(out.exc).__name__]
+            if got_ != want:
+                it.violate('C08.table', {'what': 'short-lived-planes', 'w': wt_},
+                           'planes built by name, applied to a %s wavefront and dropped, in turn %s: got %s, table says %s'
+                           % (wt_, ev['a'][1], got_, want), i)
+        if ev['fn'] == 'foreign.products':
+            it.probe('planes_saved_by_another_interpreter')
+            it.probe('check:table')
+            it.fault('restart')
+            if not out.ok:
+                it.violate('C08.table', {'what': 'saved-objects', 'got': type(out.exc).__name__},
+                           'planes and wavefronts saved by another interpreter could not be loaded and used: %r' % (out.exc,), i)
+            else:
+                for cls_, pt_, wt_, got_ in out.value:
+                    want = self.doc.result(wt_, pt_) or 'TypeError'
+                    if got_ != want:
+                        it.violate('C08.table', {'what': 'saved-objects', 'w': wt_, 'p': pt_, 'expected': want, 'got': got_},
+                                   'across a save / load by another interpreter: %s (%s) on a %s wavefront gave %s, table says %s'
+                                   % (cls_, pt_, wt_, got_, want), i)
+                        break
         if ev['fn'] == 'deepcopy' and out.ok and hasattr(out.value, 'ptype'):
             src = it.resolve(ev['a'][0])
             if str(out.value.ptype) != str(src.ptype):
@@ -194,7 +220,7 @@ class PtypeScenario(Scenario):
         self.must_hit = cells + props + ['refuse_after_transition', 'class:Pupilxnone', 'class:Pupilxpupil',
                                          'class:Imagexnone', 'class:Imageximage', 'class:Tiltxpupil', 'class:Tiltximage',
                                          'class:DispersiveTiltxpupil', 'class:Rotatexpupil', 'class:Flipxpupil', 'explicit_ptype_kw',
-                                         'wavefront_constructor_arguments', 'refuse_after_attribute_update', 'refused_on_a_dark_wavefront', 'sampled_plane_right_after_propagation', 'refused_type_assignment']
+                                         'wavefront_constructor_arguments', 'refuse_after_attribute_update', 'refused_on_a_dark_wavefront', 'sampled_plane_right_after_propagation', 'refused_type_assignment', 'short_lived_planes', 'planes_saved_by_another_interpreter']
         self.probe_names = self.must_hit + ['coldwarm_audit']
 
     @property
@@ -464,6 +490,11 @@ class PtypeScenario(Scenario):
                     prog.append({'c': c, 'fn': 'setattr', 'a': ['@' + w['id'], 'ptype', rng.choice(['tilt', 'transform', {'$ptype': 'tilt'}, 'bogus'])],
                                  'id': new_id, 't': {'refused_assignment': True}})
                     continue
+                if rng.random() < 0.07:
+                    # short-lived planes: built by type name, applied once, dropped -- each lands where the previous one lived
+                    names = [rng.choice(PTYPES) for _ in range(rng.randint(4, 9))]
+                    prog.append({'c': c, 'fn': 'churn.planes', 'a': ['@' + w['id'], names], 'id': new_id})
+                    continue
                 if rng.random() < 0.08:
                     cp = dict(w, id=new_id)
                     prog.append({'c': c, 'fn': 'deepcopy', 'a': ['@' + w['id']], 'id': new_id, 't': {'copy': True}})
@@ -609,6 +640,11 @@ class PtypeScenario(Scenario):
             for w in self.wf_models():
                 n += 1
                 events.append({'c': 0, 'fn': 'Plane.multiply', 'a': ['@' + pid, '@' + w['id']], 'id': 'r%d' % n})
+        for w in self.wf_models():
+            n += 1
+            events.append({'c': 0, 'fn': 'churn.planes', 'a': ['@' + w['id'], [PTYPES[(j * 2 + n) % len(PTYPES)] for j in range(10)]], 'id': 'churn%d' % n})
+        # durable state across a process boundary: planes / wavefronts pickled by an interpreter with another string-hash seed
+        events.append({'c': 0, 'fn': 'foreign.products', 'a': [list(PTYPES), 101 + verif_seed % 7], 'id': 'foreign'})
         # tilt on a pupil with arrays, then DFT (tilt-carrying wavefront is propagatable by DFT)
         events.append({'c': 0, 'fn': 'Plane.multiply', 'a': ['@TLT', '@pu'], 'id': 'pt'})
         mt = dict(m, id='pt', tilt=True)
